@@ -69,6 +69,10 @@ func postingsEqual(a, b []real.Posting) bool {
 	return true
 }
 
+// c09Store is the kind of store the current C09 case runs against (whole script and halves
+// alike): one that answers every asked pair, or one that leaves out what it has no record of.
+var c09Store = real.Exact
+
 func runCaseText(c *fw.Ctx, cs *gen.Case) (*real.Outcome, bool) {
 	txt := gen.PrintCanonical(cs.Script).Text
 	po := real.Parse(txt)
@@ -76,7 +80,7 @@ func runCaseText(c *fw.Ctx, cs *gen.Case) (*real.Outcome, bool) {
 		c.Count("generated_script_parse_rejected", 1)
 		return nil, false
 	}
-	o, _ := real.RunCase(po.Result, cs, real.Exact)
+	o, _ := real.RunCase(po.Result, cs, c09Store)
 	c.Eval()
 	return o, true
 }
@@ -292,6 +296,11 @@ func runC09(c *fw.Ctx) {
 		}
 		idx = i
 		cs := genCase(c.Rng(id), st.cfg)
+		c09Store = real.Exact
+		if k%2 == 1 {
+			c09Store = real.Sparse
+			c.Count("cases_on_a_store_that_omits_unknown_balances", 1)
+		}
 		c.Count("stratum_"+st.name, 1)
 		check(id, cs, st.name)
 	})
